@@ -22,6 +22,7 @@ EXPLANATION = (
     "or the stored stream rewound to 0 (an empty stream when there is none). (VIEW) for page/slide/sheet formats the "
     "document-level iterate_images / iterate_tables walk exactly the per-unit lists the unit views hand out. (REF) package "
     "part names are resolved by the format's path-normalisation helper, whose guard keeps every remaining component. (CHAIN) the PDF filter tables for format and content type have the same keys and matching values, and a /Filter array is judged by its last element (PDF 32000-1 7.4.1: what get_data() leaves encoded is the last filter)."
+    " (REF, continued) the relationship Target reaches the member lookup as written (no percent-decoding, no case mapping: the ZIP item name is the part name); the accessors of ZipContext consult the archive under one and the same expression of their path parameter; no strip() character set that holds both '.' and a separator."
 )
 NOT_DECIDED = ["bytes identical to the embedded file; content type; pixel size", "that no image is invented (relationship parsing is value level)", "which image records a reader filters out or reuses by identity (orphan relationships, per-document caches keyed by object number)"]
 TRUSTED = ["may-raise table (listed in the explanation); string methods, slicing, dataclass constructors and the dimension sniffers are assumed not to raise",
